@@ -98,8 +98,38 @@ def default_policy(rng, ssrc, **kw):
     return Pol(**d)
 
 
+def ragged_ext(rng, ids=None, words=None):
+    """extension blocks whose element stream does NOT end in clean padding: a lone (header) octet in the last
+    position, an element that ends exactly at / one short of / one beyond the block, id 15, zero-length two-byte
+    elements, leading padding.  Half one-byte form, half two-byte form."""
+    ids = ids or list(range(1, 15))
+    n = 4 * (words if words is not None else rng.choice([1, 1, 2, 3]))
+    two = rng.random() < 0.5
+    d = bytearray()
+    while len(d) < n:
+        left = n - len(d)
+        r = rng.random()
+        if r < 0.15:
+            d.append(0)                                        # padding
+        elif two:
+            ln = rng.choice([0, 1, 2, left - 2, left - 1, left, 3]) if left >= 2 else 0
+            d += bytes([rng.choice(ids + [0x80])] + ([max(ln, 0) & 0xff] if left >= 2 else [])) + rand_key(rng, max(min(ln, left - 2), 0))
+        else:
+            ln = rng.choice([1, 2, left - 1, left, left + 1, 16])
+            ln = min(max(ln, 1), 16)
+            eid = rng.choice(ids + [15])
+            d += bytes([(eid << 4) | (ln - 1)]) + rand_key(rng, max(min(ln, left - 1), 0))
+    d = bytes(d[:n])
+    if rng.random() < 0.5:
+        d = d[:-1] + bytes([rng.choice([1, 5, 0x10, 0x12, 0xf0, 0xff, rng.choice(ids)])])   # lone non-zero last octet
+    return ((0x1000 | rng.choice([0, 0, 5])) if two else 0xBEDE, d)
+
+
 def rand_ext(rng, ids=None):
     ids = ids or list(range(1, 15))
+    r = rng.random()
+    if r < 0.12:
+        return ragged_ext(rng, ids)
     r = rng.random()
     if r < 0.5:
         elems = []
